@@ -237,6 +237,14 @@ class C02(SimSpec):
             scen["groups"][0]["time_based"] = False
             scen["user"] = {}
         scen["policy"]["finish_w"] = rng.choice([0.1, 0.3, 1.0])  # blockers finish late
+        if i % 12 in (10, 7, 1):
+            # a collector (or another runner) stalls inside a results-lock hold for longer than the lock timeout while blockers
+            # finish: a result that cannot be recorded is not an outcome - whatever waits for that job must not start
+            scen["slow_results_holder"] = rng.randint(1, 4)
+            scen["user"] = {"try_submit": rng.choice([4, 6]), "show_status": 0, "p": 0.08, "late_try": 2}
+            scen["policy"]["finish_w"] = rng.choice([0.02, 0.05])
+            for g in scen["groups"]:
+                g["try_add"] = True
         if i % 6 == 2:
             # blockers that do not exit but are killed by a signal while the runner survives (out of memory, a user's kill):
             # "killed by signal n" is their outcome, and it has to be on record before anything that waits for them starts
@@ -307,6 +315,7 @@ class C02(SimSpec):
         c["dependency_edges_inside_a_batch"] = total(ok, "edges_in")
         c["local_mode_runs"] = sum(1 for t in tasks if t["args"]["scen"].get("mode") == "local")
         c["jobs_killed_by_a_signal"] = sum(1 for t in tasks for j in t["args"]["scen"]["jobs"] if j["rc"] < 0)
+        c["runs_with_a_results_lock_holder_stalled_beyond_the_lock_timeout"] = sum(1 for r in results if not r.get("error") and r.get("slow_results_holder_stalled"))
         c["runs_with_resubmission"] = sum(1 for r in ok if (r.get("epochs") or 1) > 1)
         return c
 
